@@ -138,13 +138,15 @@ CLAIMED = {
                 "validate-then-publish commit, restart on failed validation, abort returns without publishing): for every number of "
                 "threads, programs and interleavings, the final memory and the values returned by committed transactions equal the "
                 "sequential execution of the committed transactions in commit order (C07_serializable, via T3: a validated commit is a "
-                "sequential run on the current memory); memory changes only at validated commits. Tie: a deterministic schedule explorer "
+                "sequential run on the current memory); memory changes only at validated commits; the same serializability theorem at LOCK "
+                "granularity (C07_serializable_B: commit takes one lock at a time, validates under the lock, blocks on incompatible "
+                "locks; lock exclusivity is an invariant). Tie: a deterministic schedule explorer "
                 "runs REAL honeycomb transactions on real OS threads over a byte-checked vendored fast-stm with cooperative yield points "
                 "(DFS with preemption bound, random, PCT); every distinct outcome must be free of panic/hang/deadlock, equal a real "
                 "sequential run in commit order, equal the Lean model's sequential run in commit order, and be well-formed.",
         "note": "Trusted: Lean kernel + 3 standard axioms; the protocol model is hand-written after fast-stm 0.5.0; one thread runs at a "
-                "time in the explorer. NOT covered: interleavings inside commit on the real parking_lot locks, memory ordering, "
-                "wait_for_change wake-ups; the premise that operations access shared memory only through Transaction::read/write is "
+                "time in the explorer. NOT covered: deadlock-freedom of the lock acquisition order, the individual stores of the final "
+                "publish step, memory ordering, wait_for_change wake-ups; the premise that operations access shared memory only through Transaction::read/write is "
                 "tested by the explorer (defects D3/D4 found this way were repaired).",
         "design_ref": "DESIGN.md §7 C07, §4.1",
     },
